@@ -17,15 +17,15 @@
    recursive-descent reader (dec_payload), the well-formedness predicate wf_tag, the position-based
    definition of "contains a formatting code" (code_at / code_free), the piece-wise description of a
    format string (render_fmt / subst). *)
-From Coq Require Import List Arith NArith ZArith Bool String Ascii.
+From Coq Require Import List Arith NArith ZArith Bool.
 From GoMC Require Import Base.Bytes Base.Dec Gen.Consts Model.C05.
 Import ListNotations.
 Open Scope N_scope.
 
 Definition str := list N.
 
-(* string literals as byte lists *)
-Definition b (s : string) : str := map N_of_ascii (list_ascii_of_string s).
+(* string literals are written as their UTF-8 bytes (Coq's string type is kept out of the model so that
+   the extracted module does not shadow OCaml's) *)
 
 Fixpoint str_eqb (x y : str) : bool :=
   match x, y with
@@ -38,6 +38,8 @@ Definition is_nil {A} (l : list A) : bool := match l with [] => true | _ => fals
    case-insensitive; only ASCII folding is modelled (domain: ASCII key names) *)
 Definition lower1 (c : N) : N := if (65 <=? c) && (c <=? 90) then c + 32 else c.
 Definition lower (s : str) : str := map lower1 s.
+(* k is an already lower-cased stream key, key a struct tag name *)
+Definition keq (k key : str) : bool := str_eqb k (lower key).
 
 (* ------------------------------------------------------------------------------------------ *)
 (* The component type                                                                         *)
@@ -184,8 +186,8 @@ Fixpoint wf_tag (t : tag) : bool :=
 (* number of constructors: the fuel the reader needs *)
 Fixpoint tsize (t : tag) : nat :=
   match t with
-  | TList _ items => S (fold_right (fun x a => (tsize x + a)%nat) 0%nat items) + length items
-  | TComp fs => S (fold_right (fun nf a => (tsize (snd nf) + a)%nat) 0%nat fs) + length fs
+  | TList _ items => 2 + fold_right (fun x a => (tsize x + a)%nat) 0%nat items + length items
+  | TComp fs => 2 + fold_right (fun nf a => (tsize (snd nf) + a)%nat) 0%nat fs + length fs
   | _ => 1
   end%nat.
 
@@ -298,22 +300,24 @@ with dec_fields (fuel : nat) (s : list N) {struct fuel} : option (list (str * ta
 Definition dec_net (s : list N) : option (tag * list N) :=
   match s with
   | [] => None
-  | id :: r => dec_payload (2 * length s + 2) id r
+  | id :: r => dec_payload (3 * length s + 3) id r
   end.
 
 (* ------------------------------------------------------------------------------------------ *)
 (* Message -> NBT (model of the encoder applied to the chat structs)                          *)
 (* ------------------------------------------------------------------------------------------ *)
 
-Definition k_text := b "text".            Definition k_bold := b "bold".
-Definition k_italic := b "italic".        Definition k_underlined := b "underlined".
-Definition k_strike := b "strikethrough". Definition k_obf := b "obfuscated".
-Definition k_font := b "font".            Definition k_color := b "color".
-Definition k_insertion := b "insertion".  Definition k_click := b "clickEvent".
-Definition k_hover := b "hoverEvent".     Definition k_translate := b "translate".
-Definition k_with := b "with".            Definition k_extra := b "extra".
-Definition k_action := b "action".        Definition k_value := b "value".
-Definition k_contents := b "contents".
+(* the struct tag names: text bold italic underlined strikethrough obfuscated font color insertion
+   clickEvent hoverEvent translate with extra action value contents *)
+Definition k_text := [116;101;120;116].            Definition k_bold := [98;111;108;100].
+Definition k_italic := [105;116;97;108;105;99].        Definition k_underlined := [117;110;100;101;114;108;105;110;101;100].
+Definition k_strike := [115;116;114;105;107;101;116;104;114;111;117;103;104]. Definition k_obf := [111;98;102;117;115;99;97;116;101;100].
+Definition k_font := [102;111;110;116].            Definition k_color := [99;111;108;111;114].
+Definition k_insertion := [105;110;115;101;114;116;105;111;110].  Definition k_click := [99;108;105;99;107;69;118;101;110;116].
+Definition k_hover := [104;111;118;101;114;69;118;101;110;116].     Definition k_translate := [116;114;97;110;115;108;97;116;101].
+Definition k_with := [119;105;116;104].            Definition k_extra := [101;120;116;114;97].
+Definition k_action := [97;99;116;105;111;110].        Definition k_value := [118;97;108;117;101].
+Definition k_contents := [99;111;110;116;101;110;116;115].
 
 Definition opt {A} (c : bool) (x : A) : list A := if c then [x] else [].
 Definition tbool : tag := TNum idByte 1.        (* a true bool: TagByte 1; false is always omitted *)
@@ -384,16 +388,16 @@ Definition bool_of_tag (t : tag) : option bool :=
   match t with TNum id raw => if id =? idByte then Some (negb (raw =? 0)) else None | _ => None end.
 Definition str_of_tag (t : tag) : option str := match t with TStr s => Some s | _ => None end.
 
-(* decoding a compound into a *ClickEvent (allocated when nil, otherwise updated in place; unknown
+(* decoding a compound into a ClickEvent pointer (allocated when nil, otherwise updated in place; unknown
    keys are skipped: the inner decoder does not disallow unknown fields) *)
 Fixpoint click_fields (c : str * str) (fs : list (str * tag)) : option (str * str) :=
   match fs with
   | [] => Some c
   | (name, v) :: r =>
       let k := lower name in
-      if str_eqb k k_action then
+      if keq k k_action then
         match str_of_tag v with Some x => click_fields (x, snd c) r | None => None end
-      else if str_eqb k k_value then
+      else if keq k k_value then
         match str_of_tag v with Some x => click_fields (fst c, x) r | None => None end
       else click_fields c r
   end.
@@ -409,15 +413,15 @@ Definition style_field (k : str) (v : tag) (s : style) : option (option style) :
       Some (match bool_of_tag v with Some x => Some (f x s) | None => None end) in
   let os (f : str -> style -> style) :=
       Some (match str_of_tag v with Some x => Some (f x s) | None => None end) in
-  if str_eqb k k_bold then ob st_bold
-  else if str_eqb k k_italic then ob st_italic
-  else if str_eqb k k_underlined then ob st_underlined
-  else if str_eqb k k_strike then ob st_strike
-  else if str_eqb k k_obf then ob st_obf
-  else if str_eqb k k_font then os st_font
-  else if str_eqb k k_color then os st_color
-  else if str_eqb k k_insertion then os st_insertion
-  else if str_eqb k k_click then
+  if keq k k_bold then ob st_bold
+  else if keq k k_italic then ob st_italic
+  else if keq k k_underlined then ob st_underlined
+  else if keq k k_strike then ob st_strike
+  else if keq k k_obf then ob st_obf
+  else if keq k k_font then os st_font
+  else if keq k k_color then os st_color
+  else if keq k k_insertion then os st_insertion
+  else if keq k k_click then
     Some (match click_of_tag (s_click s) v with Some c => Some (st_click (Some c) s) | None => None end)
   else None.
 
@@ -427,75 +431,82 @@ Definition sx_of_arr (id : N) (raw : N) : Z :=
 Definition all_some {A} (l : list (option A)) : option (list A) :=
   fold_right (fun x acc => match x, acc with Some a, Some r => Some (a :: r) | _, _ => None end) (Some []) l.
 
+Section NbtFields.
+  Variable rec : msg -> tag -> option msg.        (* Message.UnmarshalNBT on a sub-value *)
+
+  Definition msgs_of_items (items : list tag) : option (list msg) :=
+    all_some (map (rec msg0) items).              (* fresh slice: every element starts from zero *)
+
+  (* compound into a HoverEvent pointer (allocated when nil, otherwise updated in place) *)
+  Fixpoint hover_fields (h : str * msg) (hfs : list (str * tag)) {struct hfs} : option (str * msg) :=
+    match hfs with
+    | [] => Some h
+    | (hn, hv) :: hr =>
+        let hk := lower hn in
+        if keq hk k_action then
+          match str_of_tag hv with Some x => hover_fields (x, snd h) hr | None => None end
+        else if keq hk k_value then
+          match rec (snd h) hv with Some x => hover_fields (fst h, x) hr | None => None end
+        else hover_fields h hr      (* "contents" (type any: every value is accepted) and unknown keys *)
+    end.
+
+  (* decoder.Decode of the rawMsgStruct view of m: the fields in stream order *)
+  Fixpoint msg_fields (m : msg) (fs : list (str * tag)) {struct fs} : option msg :=
+    match fs with
+    | [] => Some m
+    | (name, v) :: r =>
+        let k := lower name in
+        if keq k k_text then
+          match str_of_tag v with Some x => msg_fields (set_text x m) r | None => None end
+        else if keq k k_translate then
+          match str_of_tag v with Some x => msg_fields (set_translate x m) r | None => None end
+        else if keq k k_hover then
+          match v with
+          | TComp hfs =>
+              match hover_fields (match m_hover m with Some h => h | None => ([], msg0) end) hfs with
+              | Some h => msg_fields (set_hover (Some h) m) r
+              | None => None
+              end
+          | _ => None
+          end
+        else if keq k k_with then                 (* TranslateArgs.UnmarshalNBT: appends *)
+          match v with
+          | TList _ items =>
+              match msgs_of_items items with
+              | Some l => msg_fields (set_with (m_with m ++ map AM l) m) r
+              | None => None
+              end
+          | TArr id es =>
+              msg_fields (set_with (m_with m ++ map (fun e => AS (dec_of_Z (sx_of_arr id e))) es) m) r
+          | _ => None
+          end
+        else if keq k k_extra then                (* []Message: a fresh slice replaces the old one *)
+          match v with
+          | TList _ items =>
+              match msgs_of_items items with
+              | Some l => msg_fields (set_extra l m) r
+              | None => None
+              end
+          | _ => None
+          end
+        else
+          match style_field k v (m_style m) with
+          | Some (Some s') => msg_fields (set_style s' m) r
+          | Some None => None
+          | None => msg_fields m r                    (* unknown key: skipped *)
+          end
+    end.
+End NbtFields.
+
 Fixpoint of_tag_into (m0 : msg) (t : tag) {struct t} : option msg :=
   match t with
   | TStr s => Some (set_text s m0)                         (* decoder.Decode(&m.Text) *)
-  | TList _ items =>                                       (* decoder.Decode(&m.Extra): fresh slice *)
-      match all_some (map (of_tag_into msg0) items) with
+  | TList _ items =>                                       (* decoder.Decode(&m.Extra) *)
+      match msgs_of_items of_tag_into items with
       | Some l => Some (set_extra l m0)
       | None => None
       end
-  | TComp fs =>                                            (* decoder.Decode((*rawMsgStruct)(m)) *)
-      (fix go (m : msg) (fs : list (str * tag)) {struct fs} : option msg :=
-         match fs with
-         | [] => Some m
-         | (name, v) :: r =>
-             let k := lower name in
-             if str_eqb k k_text then
-               match str_of_tag v with Some x => go (set_text x m) r | None => None end
-             else if str_eqb k k_translate then
-               match str_of_tag v with Some x => go (set_translate x m) r | None => None end
-             else if str_eqb k k_hover then
-               match v with
-               | TComp hfs =>
-                   match
-                     (fix hgo (h : str * msg) (hfs : list (str * tag)) {struct hfs} : option (str * msg) :=
-                        match hfs with
-                        | [] => Some h
-                        | (hn, hv) :: hr =>
-                            let hk := lower hn in
-                            if str_eqb hk k_action then
-                              match str_of_tag hv with Some x => hgo (x, snd h) hr | None => None end
-                            else if str_eqb hk k_value then
-                              match of_tag_into (snd h) hv with
-                              | Some x => hgo (fst h, x) hr
-                              | None => None
-                              end
-                            else hgo h hr          (* "contents" (any: every value accepted) and unknown keys *)
-                        end) (match m_hover m with Some h => h | None => ([], msg0) end) hfs
-                   with
-                   | Some h => go (set_hover (Some h) m) r
-                   | None => None
-                   end
-               | _ => None
-               end
-             else if str_eqb k k_with then                 (* TranslateArgs.UnmarshalNBT: appends *)
-               match v with
-               | TList _ items =>
-                   match all_some (map (of_tag_into msg0) items) with
-                   | Some l => go (set_with (m_with m ++ map AM l) m) r
-                   | None => None
-                   end
-               | TArr id es =>
-                   go (set_with (m_with m ++ map (fun e => AS (dec_of_Z (sx_of_arr id e))) es) m) r
-               | _ => None
-               end
-             else if str_eqb k k_extra then                (* []Message: fresh slice replaces *)
-               match v with
-               | TList _ items =>
-                   match all_some (map (of_tag_into msg0) items) with
-                   | Some l => go (set_extra l m) r
-                   | None => None
-                   end
-               | _ => None
-               end
-             else
-               match style_field k v (m_style m) with
-               | Some (Some s') => go (set_style s' m) r
-               | Some None => None
-               | None => go m r                            (* unknown key: skipped *)
-               end
-         end) m0 fs
+  | TComp fs => msg_fields of_tag_into m0 fs               (* decoder.Decode of the rawMsgStruct view of m *)
   | _ => None                                              (* "unknown chat message type" *)
   end.
 
@@ -561,9 +572,9 @@ Fixpoint jclick_fields (c : str * str) (fs : list (str * json)) : option (str * 
   | [] => Some c
   | (name, v) :: r =>
       let k := lower name in
-      if str_eqb k k_action then
+      if keq k k_action then
         match jstr v (fst c) with Some x => jclick_fields (x, snd c) r | None => None end
-      else if str_eqb k k_value then
+      else if keq k k_value then
         match jstr v (snd c) with Some x => jclick_fields (fst c, x) r | None => None end
       else jclick_fields c r
   end.
@@ -582,91 +593,96 @@ Definition jstyle_field (k : str) (v : json) (s : style) : option (option style)
       Some (match jbool v (get s) with Some x => Some (f x s) | None => None end) in
   let os (get : style -> str) (f : str -> style -> style) :=
       Some (match jstr v (get s) with Some x => Some (f x s) | None => None end) in
-  if str_eqb k k_bold then ob s_bold st_bold
-  else if str_eqb k k_italic then ob s_italic st_italic
-  else if str_eqb k k_underlined then ob s_underlined st_underlined
-  else if str_eqb k k_strike then ob s_strike st_strike
-  else if str_eqb k k_obf then ob s_obf st_obf
-  else if str_eqb k k_font then os s_font st_font
-  else if str_eqb k k_color then os s_color st_color
-  else if str_eqb k k_insertion then os s_insertion st_insertion
-  else if str_eqb k k_click then
+  if keq k k_bold then ob s_bold st_bold
+  else if keq k k_italic then ob s_italic st_italic
+  else if keq k k_underlined then ob s_underlined st_underlined
+  else if keq k k_strike then ob s_strike st_strike
+  else if keq k k_obf then ob s_obf st_obf
+  else if keq k k_font then os s_font st_font
+  else if keq k k_color then os s_color st_color
+  else if keq k k_insertion then os s_insertion st_insertion
+  else if keq k k_click then
     Some (match jclick (s_click s) v with Some c => Some (st_click c s) | None => None end)
   else None.
 
 (* Message.UnmarshalJSON into a destination.  Domain: no duplicate "extra" key and a destination
    whose Extra is empty (encoding/json re-uses the elements of an existing slice). *)
+Section JsonFields.
+  Variable rec : msg -> json -> option msg.
+
+  Definition msgs_of_jitems (items : list json) : option (list msg) :=
+    all_some (map (rec msg0) items).
+
+  Fixpoint jhover_fields (h : str * msg) (hfs : list (str * json)) {struct hfs} : option (str * msg) :=
+    match hfs with
+    | [] => Some h
+    | (hn, hv) :: hr =>
+        let hk := lower hn in
+        if keq hk k_action then
+          match jstr hv (fst h) with Some x => jhover_fields (x, snd h) hr | None => None end
+        else if keq hk k_value then
+          match rec (snd h) hv with Some x => jhover_fields (fst h, x) hr | None => None end
+        else jhover_fields h hr
+    end.
+
+  Fixpoint jmsg_fields (m : msg) (fs : list (str * json)) {struct fs} : option msg :=
+    match fs with
+    | [] => Some m
+    | (name, v) :: r =>
+        let k := lower name in
+        if keq k k_text then
+          match jstr v (m_text m) with Some x => jmsg_fields (set_text x m) r | None => None end
+        else if keq k k_translate then
+          match jstr v (m_translate m) with Some x => jmsg_fields (set_translate x m) r | None => None end
+        else if keq k k_hover then
+          match v with
+          | JNull => jmsg_fields (set_hover None m) r
+          | JObj hfs =>
+              match jhover_fields (match m_hover m with Some h => h | None => ([], msg0) end) hfs with
+              | Some h => jmsg_fields (set_hover (Some h) m) r
+              | None => None
+              end
+          | _ => None
+          end
+        else if keq k k_with then                 (* TranslateArgs.UnmarshalJSON: appends *)
+          match v with
+          | JNull => jmsg_fields m r
+          | JArr items =>
+              match msgs_of_jitems items with
+              | Some l => jmsg_fields (set_with (m_with m ++ map AM l) m) r
+              | None => None
+              end
+          | _ => None
+          end
+        else if keq k k_extra then
+          match v with
+          | JNull => jmsg_fields (set_extra [] m) r
+          | JArr items =>
+              match msgs_of_jitems items with
+              | Some l => jmsg_fields (set_extra l m) r
+              | None => None
+              end
+          | _ => None
+          end
+        else
+          match jstyle_field k v (m_style m) with
+          | Some (Some s') => jmsg_fields (set_style s' m) r
+          | Some None => None
+          | None => jmsg_fields m r
+          end
+    end.
+End JsonFields.
+
 Fixpoint of_json_into (m0 : msg) (j : json) {struct j} : option msg :=
   match j with
   | JStr s => Some (set_text s m0)
   | JArr items =>
-      match all_some (map (of_json_into msg0) items) with
+      match msgs_of_jitems of_json_into items with
       | Some l => Some (set_extra l m0)
       | None => None
       end
-  | JObj fs =>
-      (fix go (m : msg) (fs : list (str * json)) {struct fs} : option msg :=
-         match fs with
-         | [] => Some m
-         | (name, v) :: r =>
-             let k := lower name in
-             if str_eqb k k_text then
-               match jstr v (m_text m) with Some x => go (set_text x m) r | None => None end
-             else if str_eqb k k_translate then
-               match jstr v (m_translate m) with Some x => go (set_translate x m) r | None => None end
-             else if str_eqb k k_hover then
-               match v with
-               | JNull => go (set_hover None m) r
-               | JObj hfs =>
-                   match
-                     (fix hgo (h : str * msg) (hfs : list (str * json)) {struct hfs} : option (str * msg) :=
-                        match hfs with
-                        | [] => Some h
-                        | (hn, hv) :: hr =>
-                            let hk := lower hn in
-                            if str_eqb hk k_action then
-                              match jstr hv (fst h) with Some x => hgo (x, snd h) hr | None => None end
-                            else if str_eqb hk k_value then
-                              match of_json_into (snd h) hv with
-                              | Some x => hgo (fst h, x) hr
-                              | None => None
-                              end
-                            else hgo h hr
-                        end) (match m_hover m with Some h => h | None => ([], msg0) end) hfs
-                   with
-                   | Some h => go (set_hover (Some h) m) r
-                   | None => None
-                   end
-               | _ => None
-               end
-             else if str_eqb k k_with then                 (* TranslateArgs.UnmarshalJSON: appends *)
-               match v with
-               | JNull => go m r
-               | JArr items =>
-                   match all_some (map (of_json_into msg0) items) with
-                   | Some l => go (set_with (m_with m ++ map AM l) m) r
-                   | None => None
-                   end
-               | _ => None
-               end
-             else if str_eqb k k_extra then
-               match v with
-               | JNull => go (set_extra [] m) r
-               | JArr items =>
-                   match all_some (map (of_json_into msg0) items) with
-                   | Some l => go (set_extra l m) r
-                   | None => None
-                   end
-               | _ => None
-               end
-             else
-               match jstyle_field k v (m_style m) with
-               | Some (Some s') => go (set_style s' m) r
-               | Some None => None
-               | None => go m r
-               end
-         end) m0 fs
-  | _ => None                                              (* null, true, 12: "unknown chat message type" *)
+  | JObj fs => jmsg_fields of_json_into m0 fs
+  | _ => None                                   (* null, true, 12: "unknown chat message type" *)
   end.
 
 Definition of_json (j : json) : option msg := of_json_into msg0 j.
@@ -704,15 +720,15 @@ Definition type_read (s : list N) : option (Z * msg * option msg * list N) :=
 
 (* the fmtCode table of chat/message.go: code character -> ANSI parameter *)
 Definition fmt_code : list (N * str) :=
-  [ (48, b "30"); (49, b "34"); (50, b "32"); (51, b "36"); (52, b "31"); (53, b "35"); (54, b "33");
-    (55, b "37"); (56, b "90"); (57, b "94"); (97, b "92"); (98, b "96"); (99, b "91"); (100, b "95");
-    (101, b "93"); (102, b "97"); (108, b "1"); (109, b "9"); (110, b "4"); (111, b "3"); (114, b "0") ].
+  [ (48, [51;48]); (49, [51;52]); (50, [51;50]); (51, [51;54]); (52, [51;49]); (53, [51;53]); (54, [51;51]);
+    (55, [51;55]); (56, [57;48]); (57, [57;52]); (97, [57;50]); (98, [57;54]); (99, [57;49]); (100, [57;53]);
+    (101, [57;51]); (102, [57;55]); (108, [49]); (109, [57]); (110, [52]); (111, [51]); (114, [48]) ].
 (* the colors table *)
 Definition colors : list (str * str) :=
-  [ (b "black", b "30"); (b "dark_blue", b "34"); (b "dark_green", b "32"); (b "dark_aqua", b "36");
-    (b "dark_red", b "31"); (b "dark_purple", b "35"); (b "gold", b "33"); (b "gray", b "37");
-    (b "dark_gray", b "90"); (b "blue", b "94"); (b "green", b "92"); (b "aqua", b "96");
-    (b "red", b "91"); (b "light_purple", b "95"); (b "yellow", b "93"); (b "white", b "97") ].
+  [ ([98;108;97;99;107], [51;48]); ([100;97;114;107;95;98;108;117;101], [51;52]); ([100;97;114;107;95;103;114;101;101;110], [51;50]); ([100;97;114;107;95;97;113;117;97], [51;54]);
+    ([100;97;114;107;95;114;101;100], [51;49]); ([100;97;114;107;95;112;117;114;112;108;101], [51;53]); ([103;111;108;100], [51;51]); ([103;114;97;121], [51;55]);
+    ([100;97;114;107;95;103;114;97;121], [57;48]); ([98;108;117;101], [57;52]); ([103;114;101;101;110], [57;50]); ([97;113;117;97], [57;54]);
+    ([114;101;100], [57;49]); ([108;105;103;104;116;95;112;117;114;112;108;101], [57;53]); ([121;101;108;108;111;119], [57;51]); ([119;104;105;116;101], [57;55]) ].
 
 Fixpoint code_lookup (c : N) (t : list (N * str)) : option str :=
   match t with [] => None | (k, v) :: r => if k =? c then Some v else code_lookup c r end.
@@ -770,7 +786,7 @@ Fixpoint count_codes (s : str) : nat :=
    %!(EXTRA type=value, ...). *)
 Definition farg := (bool * str)%type.
 Definition extra_one (a : farg) : str :=
-  (if fst a then b "chat.Message" else b "string") ++ 61 :: snd a.
+  (if fst a then [99;104;97;116;46;77;101;115;115;97;103;101] else [115;116;114;105;110;103]) ++ 61 :: snd a.
 Fixpoint extra_join (l : list farg) : str :=
   match l with
   | [] => []
@@ -778,7 +794,7 @@ Fixpoint extra_join (l : list farg) : str :=
   | a :: r => extra_one a ++ 44 :: 32 :: extra_join r
   end.
 Definition extra_tail (l : list farg) : str :=
-  match l with [] => [] | _ => b "%!(EXTRA " ++ extra_join l ++ [41] end.
+  match l with [] => [] | _ => [37;33;40;69;88;84;82;65;32] ++ extra_join l ++ [41] end.
 
 Fixpoint sprintf (f : str) (args : list farg) : rres :=
   match f with
@@ -792,7 +808,7 @@ Fixpoint sprintf (f : str) (args : list farg) : rres :=
             else if d =? 115 then
               match args with
               | a :: rest => rbind (sprintf r2 rest) (fun o => ROk (snd a ++ o))
-              | [] => rbind (sprintf r2 []) (fun o => ROk (b "%!s(MISSING)" ++ o))
+              | [] => rbind (sprintf r2 []) (fun o => ROk ([37;33;115;40;77;73;83;83;73;78;71;41] ++ o))
               end
             else RUnsup
         end
@@ -825,12 +841,17 @@ Fixpoint rconcat (l : list rres) : rres :=
   | [] => ROk []
   | x :: r => rbind x (fun a => rbind (rconcat r) (fun o => ROk (a ++ o)))
   end.
-Fixpoint rall (l : list rres) : option (list str) + bool :=   (* inl: all ok; inr true: crash *)
+Inductive rlist : Type := LOk (l : list str) | LCrash | LUnsup.
+Fixpoint rall (l : list rres) : rlist :=
   match l with
-  | [] => inl (Some [])
-  | ROk s :: r => match rall r with inl (Some t) => inl (Some (s :: t)) | x => x end
-  | RCrash :: _ => inr true
-  | RUnsup :: r => match rall r with inr true => inr true | _ => inr false end
+  | [] => LOk []
+  | x :: r =>
+      match x, rall r with
+      | RCrash, _ => LCrash
+      | _, LCrash => LCrash
+      | ROk s, LOk t => LOk (s :: t)
+      | _, _ => LUnsup
+      end
   end.
 
 Section Render.
@@ -845,18 +866,17 @@ Section Render.
                                               | AM m' => clear_string m'
                                               | AS z => ROk (strip z)
                                               end) w) with
-                    | inl (Some l) => sprintf (assoc tr tbl) (map (fun s => (false, s)) l)
-                    | inl None => RUnsup
-                    | inr true => RCrash
-                    | inr false => RUnsup
+                    | LOk l => sprintf (assoc tr tbl) (map (fun s => (false, s)) l)
+                    | LCrash => RCrash
+                    | LUnsup => RUnsup
                     end)
           (fun tro => rbind (rconcat (map clear_string e)) (fun eo => ROk (strip t ++ tro ++ eo)))
     end.
 
   (* the "1;3;4;9;<colour>;" prefix built by String() *)
   Definition sgr (s : style) : str :=
-    (if s_bold s then b "1;" else []) ++ (if s_italic s then b "3;" else [])
-    ++ (if s_underlined s then b "4;" else []) ++ (if s_strike s then b "9;" else [])
+    (if s_bold s then [49;59] else []) ++ (if s_italic s then [51;59] else [])
+    ++ (if s_underlined s then [52;59] else []) ++ (if s_strike s then [57;59] else [])
     ++ (if is_nil (s_color s) then [] else assoc (s_color s) colors ++ [59]).
 
   (* Message.String *)
@@ -875,14 +895,12 @@ Section Render.
                                               | AM m' => ansi_string m'
                                               | AS z => ROk z
                                               end) w) with
-                    | inl (Some l) =>
-                        sprintf (assoc tr tbl) (combine (map is_AM w) l)
-                    | inl None => RUnsup
-                    | inr true => RCrash
-                    | inr false => RUnsup
+                    | LOk l => sprintf (assoc tr tbl) (combine (map is_AM w) l)
+                    | LCrash => RCrash
+                    | LUnsup => RUnsup
                     end)
           (fun tro => rbind (rconcat (map ansi_string e)) (fun eo =>
-             ROk (p ++ tx ++ tro ++ eo ++ (if negb (is_nil f) || ch then esc :: b "[0m" else [])))))
+             ROk (p ++ tx ++ tro ++ eo ++ (if negb (is_nil f) || ch then esc :: [91;48;109] else [])))))
     end.
 End Render.
 
